@@ -231,7 +231,8 @@ Proof.
     try match goal with H : array_api_ok _ = true |- _ => rewrite H end;
     try match goal with H : utf8_valid _ = true |- _ => rewrite H end;
     try match goal with H : media_type_valid _ = true |- _ => rewrite H end;
-    try match goal with H : custom_type_ok _ = true |- _ => rewrite H end; cbn [negb andb];
+    try match goal with H : custom_type_ok _ = true |- _ => rewrite H end;
+    try match goal with H : time_token_valid _ = true |- _ => rewrite H end; cbn [negb andb];
     try match goal with |- context [if ?b then _ else _] => destruct b end;
     unfold mkplan; eexists; (split; [reflexivity|]); cbn [p_nno p_meth p_args p_out a_arrty a_count a_data array_args];
     (split; [reflexivity|]); (split; [reflexivity|]);
@@ -437,7 +438,8 @@ Proof.
   intros R [C1 [C2 C3]] KO K Fr Rm O. subst rk. rewrite rstep_plan. unfold key_ok in KO. rewrite K in KO.
   destruct e as [| |v| |m t| |b| | |n|n|z|[z|]|bits|[bf|]|d|[d|]|s|b|s| | |id|id| | | |id|id|t cnt d|t d|mt d|ct d|ct d|t|mt|t ct|n m|d];
     cbn [key_of] in K; try discriminate K.
-  all: try (inv_some; cbn [ev_plan]; unfold mkplan, plan_step; cbn [p_nno p_meth p_args p_out]; rewrite (nno_ok cfg c Rm O);
+  all: try (inv_some; cbn [ev_plan]; try (cbv beta iota in KO; rewrite KO; cbn [negb]);
+            unfold mkplan, plan_step; cbn [p_nno p_meth p_args p_out]; rewrite (nno_ok cfg c Rm O);
             rewrite (call_current_cell cfg _ _ (nno_state c) (e_rule (cur c))) by reflexivity; rewrite C1;
             cbn [exec_prims exec_prim key_args a_key]; unfold notify_key, nno_state, bump; rsimpl; rewrite Fr;
             destruct tgt; cbn [change_cell exec_prims exec_prim]; eexists; split; reflexivity).
